@@ -4,6 +4,7 @@ package main
 
 import (
 	"fmt"
+	"go/ast"
 	"go/constant"
 	"go/token"
 	"go/types"
@@ -266,6 +267,40 @@ func (fr *frame) loopEnv(h *ssa.BasicBlock, phiVals map[*ssa.Phi]SV, cur *State)
 		}
 		env.pkg = fr.fn.Pkg.Pkg
 	}
+	// source names of values defined before the loop (DebugRef), closest dominating definition wins
+	best := map[string]*ssa.BasicBlock{}
+	for _, b := range fr.fn.Blocks {
+		if !b.Dominates(h) || b == h {
+			continue
+		}
+		for _, ins := range b.Instrs {
+			dr, ok := ins.(*ssa.DebugRef)
+			if !ok || dr.IsAddr {
+				continue
+			}
+			id, ok := dr.Expr.(*ast.Ident)
+			if !ok {
+				continue
+			}
+			sv, have := fr.env[dr.X]
+			if !have {
+				if _, isC := dr.X.(*ssa.Const); isC {
+					sv = fr.val(dr.X)
+				} else {
+					continue
+				}
+			}
+			if _, isParam := env.vars[id.Name]; isParam && best[id.Name] == nil {
+				if _, p := vc.params[id.Name]; p && fr.top {
+					// a parameter that is reassigned before the loop: the reassigned value wins
+				}
+			}
+			if pb := best[id.Name]; pb == nil || pb.Dominates(b) {
+				best[id.Name] = b
+				env.vars[id.Name] = sv
+			}
+		}
+	}
 	for _, ins := range h.Instrs {
 		phi, ok := ins.(*ssa.Phi)
 		if !ok {
@@ -320,7 +355,7 @@ func (fr *frame) enterLoop(h *ssa.BasicBlock, edges []edgeState, ord int) (*Stat
 	}
 	envIn := fr.loopEnv(h, entryVals, stIn)
 	for i, cl := range invs {
-		vc.oblige("inv", fmt.Sprintf("loop%d.inv%d.entry", ord, i+1), gIn, vc.evalBool(cl.Expr, envIn))
+		vc.oblige("inv", fmt.Sprintf("loop%d.inv%d.entry", ord, i+1), gIn, vc.evalGoal(cl.Expr, envIn))
 	}
 	// havoc
 	li := &loopInfo{ord: ord, phis: map[*ssa.Phi]SV{}, guard: gIn}
@@ -359,7 +394,7 @@ func (fr *frame) enterLoop(h *ssa.BasicBlock, edges []edgeState, ord int) (*Stat
 	envH := fr.loopEnv(h, li.phis, hst)
 	envH.old = vc.entry
 	for _, cl := range invs {
-		vc.assume(implies(gIn, vc.evalBool(cl.Expr, envH)))
+		vc.assume(implies(gIn, vc.evalHyp(cl.Expr, envH, gIn)))
 	}
 	if len(decs) > 0 {
 		li.dec = vc.evalSpec(decs[0].Expr, envH).t
@@ -396,7 +431,7 @@ func (fr *frame) backEdge(h *ssa.BasicBlock, from *ssa.BasicBlock, st *State, g 
 		for _, cl := range con.Clauses {
 			if cl.Loop == li.ord && cl.Kind == "loopinv" {
 				n++
-				vc.oblige("inv", fmt.Sprintf("loop%d.inv%d.preserve", li.ord, n), g, vc.evalBool(cl.Expr, env))
+				vc.oblige("inv", fmt.Sprintf("loop%d.inv%d.preserve", li.ord, n), g, vc.evalGoal(cl.Expr, env))
 			}
 			if cl.Loop == li.ord && cl.Kind == "loopdec" && li.hasDec {
 				d := vc.evalSpec(cl.Expr, env).t
